@@ -633,6 +633,14 @@ class Machine:
         if len(path) >= 2 and path[-1] == 'syntax' and 'painter' in path:
             self.events['SET_SYNTAX'] += 1
             return [g._replace(SY=1)]
+        if len(path) >= 2 and path[-1] == 'highlighter' and 'painter' in path and not self.color_only and not self.passthrough:
+            # the highlighter (language + parser state) is replaced: lines still waiting in the subhunk buffers belong to the text
+            # before this point and would be highlighted with the new one
+            self.events['SET_HIGHLIGHTER'] += 1
+            if (g.Lm or g.Lq) and not g.LBp:
+                self.violate('HL-SWAP', fn, 'the syntax highlighter is replaced while removed / added lines read earlier are still buffered unpainted: they are '
+                             'highlighted with the language (and parser state) selected for what follows them', g, facet='LB')
+            return [g]
         if path in (('line',), ('raw_line',)):
             self.events['WRITE_LINE'] += 1
             self.event_sites['WRITE_LINE'].add(fn)
